@@ -315,6 +315,11 @@ def jobs_for(ck):
         for pl in (('root', 'allsub') if ck.thorough else (('root', 'allsub')[(pi_ + ck.seed) % 2],)):
             jobs.append((idx, spec, pl, False, ()))
             idx += 1
+    # a precompiled header that includes a generated header
+    for qi, spec in enumerate(pg.pch_specs()):
+        for pl in (('root', 'allsub') if ck.thorough else (('root', 'allsub')[(qi + ck.seed) % 2],)):
+            jobs.append((idx, spec, pl, False, ()))
+            idx += 1
     # generators that need a build-time product and process several inputs in one call
     for gi, spec in enumerate(pg.gendep_specs()):
         for pl in (('root', 'allsub') if ck.thorough else (('root', 'allsub')[(gi + ck.seed) % 2],)):
